@@ -49,22 +49,33 @@ class _Hang(Exception):
     pass
 
 
-class watchdog:
-    """SIGALRM based: a bisection that does not stop is turned into a _Hang exception."""
+_HUNG = []
 
-    def __init__(self, seconds):
-        self.seconds = seconds
+
+class watchdog:
+    """Turns a search that does not stop into a _Hang exception.  The budget is CPU time of this
+    process (ITIMER_VIRTUAL), so a loaded machine cannot fake a hang, and it is derived from the number
+    of iterations the model allows: 0.2 s + 4 ms per iteration and per unit of work (a healthy
+    iteration costs ~40 us on these tensor sizes).  After the first hang seen in this process the
+    remaining calls get at most 0.3 s, so that an implementation that never stops cannot make the check
+    run much longer than usual."""
+
+    def __init__(self, iterations, work=1.0):
+        budget = 0.2 + 0.004 * iterations * work
+        self.seconds = min(budget, 0.3) if _HUNG else budget
 
     def _handler(self, signum, frame):
         raise _Hang()
 
     def __enter__(self):
-        self.old = signal.signal(signal.SIGALRM, self._handler)
-        signal.setitimer(signal.ITIMER_REAL, self.seconds)
+        self.old = signal.signal(signal.SIGVTALRM, self._handler)
+        signal.setitimer(signal.ITIMER_VIRTUAL, self.seconds)
 
-    def __exit__(self, *a):
-        signal.setitimer(signal.ITIMER_REAL, 0)
-        signal.signal(signal.SIGALRM, self.old)
+    def __exit__(self, exc_type, *a):
+        signal.setitimer(signal.ITIMER_VIRTUAL, 0)
+        signal.signal(signal.SIGVTALRM, self.old)
+        if exc_type is _Hang:
+            _HUNG.append(1)
         return False
 
 
@@ -211,11 +222,11 @@ def bisect_grid(ctx, block):
     nstar = max(max(0, math.ceil(math.log2(float(m["hi"] - m["lo"]) / precision))) for m in model)
     max_iter = block.get("max_iter", nstar + 2)
     try:
-        with watchdog(20):
+        with watchdog(max_iter):
             out = bisect(fn, target, lower, upper, precision=precision, max_iter=max_iter)
     except _Hang:
         ctx.tick(n)
-        ctx.violation(site, "hang", f"bisect did not return within 20 s on {block}", block=block)
+        ctx.violation(site, "hang", f"bisect did not stop within the CPU budget of {max_iter} iterations on {block}", block=block)
         return
     except RuntimeError as e:
         ctx.tick(n)
@@ -278,7 +289,7 @@ def bisect_sequence(ctx, block):
         mini = dict(block, steps=steps[:k + 1])
         n = len(els)
         try:
-            with watchdog(20):
+            with watchdog(nstar + 2):
                 out = bisect(fn, target, lower, upper, precision=precision, max_iter=nstar + 2)
         except _Hang:
             ctx.tick(n)
@@ -350,7 +361,7 @@ def bisect_subulp(ctx, block):
 
     ctx.tick(n, nontrivial=n)
     try:
-        with watchdog(20):
+        with watchdog(max_iter):
             out = bisect(fn, target, lower, upper, precision=precision, max_iter=max_iter)
     except _Hang:
         ctx.violation("bisect", "hang", f"bisect(precision={precision}, max_iter={max_iter}) did not stop", block=block)
@@ -372,9 +383,6 @@ def bisect_subulp(ctx, block):
                           f"the bracket cannot get narrower than that, the search cannot converge)",
                           observed=x, expected="RuntimeError, or a point within %g of %r" % (precision, float(r)), block=block)
             return
-
-
-_HUNG = []
 
 
 @family
@@ -420,12 +428,11 @@ def bisect_abort(ctx, block):
 
     ctx.tick(1, nontrivial=1)
     try:
-        # once one search has hung in this process the remaining ones get a short leash
-        with watchdog(block.get("watchdog", 0.5 if _HUNG else 8)):
+        # budget from the iteration count the caller allows
+        with watchdog(max_iter):
             out = bisect(fn, target, lower, upper, precision=precision, max_iter=max_iter)
         raised = None
     except _Hang:
-        _HUNG.append(1)
         ctx.violation("bisect", "hang", f"bisect(precision={precision}, max_iter={max_iter}) on [{lo}, {hi}] did not stop "
                       f"within the watchdog; the model needs "
                       f"{nstar} halvings", observed="hang", expected="RuntimeError" if expect_raise else "a root", block=block)
@@ -523,6 +530,12 @@ def _module(product, call, K):
     return cls(strike=K) if product in NEEDS_MAX else cls(call=call, strike=K)
 
 
+def _price_call(module, product, lm, mm, t, v):
+    if product in NEEDS_MAX:
+        return module.price(log_moneyness=lm, max_log_moneyness=mm, time_to_maturity=t, volatility=v)
+    return module.price(log_moneyness=lm, time_to_maturity=t, volatility=v)
+
+
 def _iv_call(module, product, lm, mm, t, v, precision):
     if product in NEEDS_MAX:
         price = module.price(log_moneyness=lm, max_log_moneyness=mm, time_to_maturity=t, volatility=v)
@@ -591,10 +604,10 @@ def iv_cases(ctx, block):
         mini = dict(block, cases=[list(case)])
         mini.pop("grid", None)
         try:
-            with watchdog(30):
+            with watchdog(100, work=10):
                 price, iv = _iv_call(module, product, lm, mm, tt, vv, precision)
         except _Hang:
-            ctx.violation(site, "hang", f"implied_volatility did not return within 30 s at {case}", block=mini)
+            ctx.violation(site, "hang", f"implied_volatility did not stop within the CPU budget of its 100 iterations at {case}", block=mini)
             continue
         except RuntimeError as e:
             ctx.tick(n)
@@ -640,10 +653,10 @@ def iv_batch(ctx, block):
     tt = torch.tensor([c[2] for c, v in rows], dtype=torch.float64)
     vv = torch.tensor([v for c, v in rows], dtype=torch.float64)
     try:
-        with watchdog(60):
+        with watchdog(100, work=10 + len(rows) / 20):
             price, iv = _iv_call(module, product, lm, mm, tt, vv, None)
     except _Hang:
-        ctx.violation(site, "hang", "implied_volatility did not return within 60 s", block=block)
+        ctx.violation(site, "hang", "implied_volatility did not stop within the CPU budget of its 100 iterations", block=block)
         return
     except RuntimeError as e:
         ctx.tick(len(rows))
@@ -651,8 +664,8 @@ def iv_batch(ctx, block):
         return
     # which elements are constant in floating point between the ends of the bracket
     with torch.no_grad():
-        lo_p = _iv_call(module, product, lm, mm, tt, torch.full_like(vv, V_LO), None)[0]
-        hi_p = _iv_call(module, product, lm, mm, tt, torch.full_like(vv, V_HI), None)[0]
+        lo_p = _price_call(module, product, lm, mm, tt, torch.full_like(vv, V_LO))
+        hi_p = _price_call(module, product, lm, mm, tt, torch.full_like(vv, V_HI))
     flat = (lo_p == hi_p)
     flat_cases = sorted({rows[i][0] for i in flat.nonzero().flatten().tolist()})
     nontriv = 0
